@@ -93,6 +93,9 @@ def runPassFrom (cfg : Config) (inp : Input) (seen : List String) (groups : List
     let pepCutoff := C17.cutoff (peps.map C17.PepVal.fin) inp.psm
     let compGroups := groups ++ extra.map (·.1)
     let compInfos := infos ++ extra.map (·.2)
+    -- no group has a peptide: multPEP dies in optimize_hyperparameters (empty score table) before the
+    -- competition is reached, best-PEP in the competition's `zip(*[])`; either way nothing is ranked
+    if compInfos.all (·.isEmpty) then .error "no_ranked_groups" else
     if scores.length ≠ compGroups.length then .error "scores_misaligned" else
     let items := zipItems compGroups compInfos scores
     if !C02.shufflesFit cfg.mode seen ⟨items, π₁, π₂⟩ then .error "shuffles_do_not_fit" else
